@@ -62,10 +62,51 @@ type malformed struct{ what string }
 
 func (m *malformed) Error() string { return m.what }
 
+// decodeJSON: one pass over a response that has the expected envelope; anything else (a key missing, success not
+// true, a parse error, trailing bytes) is classified by the two-pass reader below, which is the definition.
 func decodeJSON(body []byte) (*decoded, error) {
 	if !utf8.Valid(body) {
 		return nil, &malformed{"invalid-utf8"}
 	}
+	var env struct {
+		Success  *bool       `json:"success"`
+		Columns  []string    `json:"columns"`
+		Data     [][]any     `json:"data"`
+		RowCount json.Number `json:"row_count"`
+	}
+	dec := json.NewDecoder(bytes.NewReader(body))
+	dec.UseNumber()
+	// encoding/json matches struct fields case-insensitively; the envelope keys must be spelled exactly (a quote inside
+	// a JSON string is always escaped, so these byte sequences can only be keys)
+	exactKeys := bytes.Contains(body, []byte(`"success":`)) && bytes.Contains(body, []byte(`"columns":`)) &&
+		bytes.Contains(body, []byte(`"data":`)) && bytes.Contains(body, []byte(`"row_count":`))
+	if err := dec.Decode(&env); exactKeys && err == nil && env.Success != nil && *env.Success && env.Columns != nil && env.Data != nil && env.RowCount != "" {
+		var extra any
+		if n, err := env.RowCount.Int64(); err == nil && dec.Decode(&extra) == io.EOF {
+			d := &decoded{rowCount: n, columns: env.Columns, rows: len(env.Data)}
+			d.cols = make([][]any, len(d.columns))
+			for c := range d.cols {
+				d.cols[c] = make([]any, len(env.Data))
+			}
+			ok := true
+			for r, row := range env.Data {
+				if len(row) != len(d.columns) {
+					ok = false
+					break
+				}
+				for c, v := range row {
+					d.cols[c][r] = jsonObs(v)
+				}
+			}
+			if ok {
+				return d, nil
+			}
+		}
+	}
+	return decodeJSONTwoPass(body)
+}
+
+func decodeJSONTwoPass(body []byte) (*decoded, error) {
 	dec := json.NewDecoder(bytes.NewReader(body))
 	dec.UseNumber()
 	var env map[string]json.RawMessage
